@@ -3,7 +3,7 @@ from . import queuing as A
 from .qmodel import QModel
 
 EXPLANATION = ('C15-R1 submitted += 1 exactly on the accepted edge; C15-R2 drained += 1 once per dequeued metric before the '
-               'task; C15-R3 counters change only by fetch_add(1) from one writer site each; C15-R4 queued() cannot wrap '
+               'task, and the task hands the metric to the wrapped sink exactly once; C15-R3 counters change only by fetch_add(1) from one writer site each; C15-R4 queued() cannot wrap '
                '(linear-form entailment of the dominating guard).')
 
 
@@ -15,3 +15,5 @@ def check(ctx, rep):
     A.rule_emit(m, rep, 'R1', counters=True)
     A.rule_loop(m, rep, 'R2', drained=True)
     A.rule_counters(m, rep)
+    # drained counts hand-offs to the wrapped sink: one emit per dequeued (= counted) metric
+    A.rule_task_closure(m, rep, 'R2', parts=('once',))
